@@ -147,7 +147,9 @@ def run_tlc(workdir, spec_dir, module, cfg, mode="mc", workers="auto", timeout=6
                     shutil.copy(os.path.join(d, f), scratch)
     for src in (extra_files or []):
         shutil.copy(src, scratch)
-    cmd = ["java", "-XX:+UseParallelGC", "-Xmx" + heap, "-Xss64m"]
+    jtmp = os.path.join(scratch, "jtmp")
+    os.makedirs(jtmp, exist_ok=True)
+    cmd = ["java", "-XX:+UseParallelGC", "-Xmx" + heap, "-Xss64m", "-Djava.io.tmpdir=" + jtmp]
     if dfs:
         cmd.append("-Dtlc2.tool.queue.IStateQueue=StateDeque")
     cmd += ["-cp", TLA_CP, "tlc2.TLC", "-metadir", os.path.join(scratch, "meta"),
@@ -187,6 +189,7 @@ def run_tlc(workdir, spec_dir, module, cfg, mode="mc", workers="auto", timeout=6
     # keep scratch small: drop the state files
     shutil.rmtree(os.path.join(scratch, "meta"), ignore_errors=True)
     shutil.rmtree(os.path.join(scratch, "states"), ignore_errors=True)
+    shutil.rmtree(jtmp, ignore_errors=True)
     res.scratch = scratch
     return res
 
